@@ -62,7 +62,9 @@ def main():
                  [["A.B", "C+D", "E*F", "G(H)"], ["PHSPX"]],
                  [["FOO-", "BAR-1"]],
                  [[pick() + "1", pick()[:3]], [pick() + "_" + pick()]],
-                 [["SVS_", "VSS_BMIXX", "PH", "PHS"]]]
+                 [["SVS_", "VSS_BMIXX", "PH", "PHS"]],
+                 # prefixes of published names that stop right before a non-word character (then the longer published name must still win)
+                 [sorted({m[:i] for m in models for i, ch in enumerate(m) if i > 0 and not (ch.isalnum() or ch == "_")})]]
     if args.tier == "thorough":
         for _ in range(8):
             instances.append([[pick()[: rng.randint(1, 4)], pick() + rng.choice(["x", "_y", "-z", "9"])], [rng.choice(["N-1", "AA", "a_b"])]])
